@@ -435,9 +435,9 @@ func enumerateSingleFaults(gseed uint64) []*Workload {
 	var out []*Workload
 	base := Gen(gseed, false)
 	for _, f := range base.Files {
-		kinds := []string{"enoent", "eacces", "eio-open", "eio-read", "garbage-import", "garbage-body", "garbage-bracket"}
+		kinds := []string{"enoent", "eacces", "eio-open", "eio-read", "garbage-import", "garbage-body", "garbage-bracket", "bad-escape"}
 		if f.Remote {
-			kinds = []string{"retrieve-error", "garbage-import", "garbage-body", "garbage-bracket"}
+			kinds = []string{"retrieve-error", "garbage-import", "garbage-body", "garbage-bracket", "bad-escape"}
 		} else if f.Kind != "sysl" {
 			kinds = []string{"enoent", "eacces", "eio-open", "eio-read", "bad-foreign"}
 		}
@@ -607,7 +607,7 @@ func dynamicProbes(w *Workload, e *Expect, o *Outcome, c core.Counters) {
 // validates the harness's notion of "certainly bad"; a tree on which garbage compiles
 // violates C06 outright, and the case is reported like any other run.
 func selfcheck(t *testing.T, c core.Cfg, part *core.Partial) {
-	for _, kind := range []string{"garbage-import", "garbage-body", "garbage-bracket"} {
+	for _, kind := range []string{"garbage-import", "garbage-body", "garbage-bracket", "bad-escape"} {
 		w := &Workload{Family: "plain", Template: "selfcheck", Files: []*FileSpec{{ID: 0, Path: "f0.sysl", Kind: "sysl"}}}
 		w.Files[0].Text = render(w, w.Files[0])
 		ft := Fault{File: 0, Kind: kind, Certain: true}
